@@ -90,7 +90,10 @@ theorem step_closedInv {s s' : State} {a : Action} (r : Reach s) (k : ClosedInv 
                have hm := k.max hc0
                simp only [Op.sizeW] at b
                omega)
-        · simp at h1
+        · split at h1
+          · simp only [stepRetPanic, Option.some.injEq] at h1; subst h1
+            exact ⟨k.max, k.idle, k.nolock⟩
+          · simp at h1
       | take pc o add =>
         simp only at h1
         split at h1
@@ -102,7 +105,10 @@ theorem step_closedInv {s s' : State} {a : Action} (r : Reach s) (k : ClosedInv 
           all_goals refine ⟨fun hc => ?_, fun hc => ?_, fun hc => ?_⟩
           all_goals (have hc0 : s.sem.closed = true := hc)
           all_goals closed_fields k hc0
-        · simp at h1
+        · split at h1
+          · simp only [stepTakePanic, Option.some.injEq] at h1; subst h1
+            exact ⟨k.max, k.idle, k.nolock⟩
+          · simp at h1
       | resize n c pc old =>
         simp only at h1
         split at h1
